@@ -188,6 +188,34 @@ pub fn test_two_cancels(c: &crate::checks::c13::Case) -> Result<CaseInfo, Fail> 
     })
 }
 
+/// Fifth family: one policy, a party is cancelled while its result notification is on its way to a
+/// destination that is not instantaneous (the computation itself has ended).  Whatever becomes of
+/// that cancel call, once nothing is in flight the budgets of all parties are complete.
+pub fn test_cancel_at_delivery(c: &crate::checks::c13::Case) -> Result<CaseInfo, Fail> {
+    let obs = crate::srv::explore::explore_blocking(&c.cfg, &c.plan);
+    if !obs.trigger_fired {
+        return Ok(CaseInfo { classes: vec!["cancel-at-delivery:not-fired".into()], ..Default::default() });
+    }
+    if let Some(p) = obs.actor_panicked.iter().position(|x| *x) {
+        return Err(Fail::new("C17|actor-panic", format!("cancel at delivery: state machine of party {p} panicked")));
+    }
+    if obs.inflight_calls == 0 {
+        if let Some(p) = (0..c.cfg.n()).find(|p| obs.permits[*p] != c.cfg.concurrency) {
+            return Err(Fail::new(
+                "C17|permit-leak-after-cancel|at-delivery",
+                format!("party {p} (leader {}) was cancelled while its result notification was being delivered; the computation has ended and nothing is in flight, but party {p} holds {} of {} permits (cancel result {:?})", c.cfg.leader, obs.permits[p], c.cfg.concurrency, obs.cancel.as_ref().map(|c| c.as_ref().map(|x| &x.0))),
+            ));
+        }
+    }
+    Ok(CaseInfo {
+        nontrivial: Some(hash_of(&serde_json::to_string(c).unwrap())),
+        classes: vec!["cancel-at-delivery".into(), if obs.inflight_calls == 0 { "cancel-at-delivery:decided".into() } else { "cancel-at-delivery:calls-in-flight".into() }],
+        sample: Some(json!({"cancel_at_delivery": {"leader": c.cfg.leader, "plan_cancel": c.plan.cancel, "permits": obs.permits, "inflight_calls": obs.inflight_calls}})),
+        undecided: obs.inflight_calls != 0,
+        ..Default::default()
+    })
+}
+
 pub fn gen_batch(m: &mut Mix, with_failure: bool, max_sessions: usize, n: usize) -> Batch {
     let k = 1 + m.below(max_sessions);
     let concurrency = 1 + m.below(3);
@@ -242,6 +270,30 @@ fn run_unit(u: &Unit, emit: &mut dyn FnMut(UnitResult)) {
                     Err(f) => emit(UnitResult::Fail(f, serde_json::to_value(&case).unwrap())),
                 }
             }
+            // cancel-at-delivery family: every party with a destination, a few coordination orders
+            for target in 0..cfg.n() {
+                for script in [vec![], vec![1usize, 1], vec![0, 1, 0, 1]] {
+                    let mut cfg2 = cfg.clone();
+                    cfg2.outputs = vec![true; cfg.n()];
+                    let case = crate::checks::c13::Case { cfg: cfg2, plan: Plan { script, hold_outputs: true, cancel: Some((When::OutputInFlight, target)), ..Default::default() } };
+                    match test_cancel_at_delivery(&case) {
+                        Ok(i) => emit(UnitResult::Ok(i)),
+                        Err(f) => emit(UnitResult::Fail(f, serde_json::to_value(&case).unwrap())),
+                    }
+                }
+                // ... and immediately after every explorer action (in particular right after the
+                // destination has answered, before the state machine has seen the task's Stop)
+                let mut cfg2 = cfg.clone();
+                cfg2.outputs = vec![true; cfg.n()];
+                let base = crate::srv::explore::explore_blocking(&cfg2, &Plan { hold_outputs: true, ..Default::default() });
+                for k in 0..base.branching.len() {
+                    let case = crate::checks::c13::Case { cfg: cfg2.clone(), plan: Plan { hold_outputs: true, cancel: Some((When::AfterAction(k), target)), ..Default::default() } };
+                    match test_cancel_at_delivery(&case) {
+                        Ok(i) => emit(UnitResult::Ok(i)),
+                        Err(f) => emit(UnitResult::Fail(f, serde_json::to_value(&case).unwrap())),
+                    }
+                }
+            }
         }
         return;
     }
@@ -277,7 +329,7 @@ pub fn run(tier: Tier, seed: u64) -> i32 {
         return run_worker(units(tier, seed), k, of, run_unit);
     }
     let ctx = Ctx::new("C17", tier, seed, "fault_enumeration");
-    ctx.set_rule("generated batches (seeded SplitMix from VERIF_SEED): 1..8 two-party policies in flight at once sharing one semaphore per party, concurrency 1..3, mixed leaders, constants from none/some parties, destination present or absent, random interleaving of all sessions' schedule calls and coordination RPC deliveries (choice vector); second family: 1..3 two-party or 1..2 three-party policies with a failure injected into one validate / run / consts RPC (for three parties: towards one of the two peers only); oracle: (1) per party, the number of sessions it leads whose interval [first run sent, last MPC message sent / result notified by the leader] overlaps never exceeds the concurrency; (2) undisturbed batch: exactly one correct result per destination, every state machine stopped, every semaphore full at exact quiescence; (3) failed RPC: the caller's state machine has stopped, its destination received at most one notification and (run/consts) exactly one error, a failed validate is reported by the schedule call, and the caller's budget is complete; the callee side may linger; third family: 1..4 policies of which one is cancelled at every party at a generated step - (4) once every cancel returned Ok the session's state machines have stopped, no destination got a second notification, the other sessions still deliver their correct results and, when everything has ended, all permits are back; fourth family: one policy, the leader cancelled while compiling and the follower cancelled at a later point - with nothing in flight at quiescence the leader's budget is complete; non-trivial = batch with >= 2 sessions or a fired failure; distinct by hash of the batch");
+    ctx.set_rule("generated batches (seeded SplitMix from VERIF_SEED): 1..8 two-party policies in flight at once sharing one semaphore per party, concurrency 1..3, mixed leaders, constants from none/some parties, destination present or absent, random interleaving of all sessions' schedule calls and coordination RPC deliveries (choice vector); second family: 1..3 two-party or 1..2 three-party policies with a failure injected into one validate / run / consts RPC (for three parties: towards one of the two peers only); oracle: (1) per party, the number of sessions it leads whose interval [first run sent, last MPC message sent / result notified by the leader] overlaps never exceeds the concurrency; (2) undisturbed batch: exactly one correct result per destination, every state machine stopped, every semaphore full at exact quiescence; (3) failed RPC: the caller's state machine has stopped, its destination received at most one notification and (run/consts) exactly one error, a failed validate is reported by the schedule call, and the caller's budget is complete; the callee side may linger; third family: 1..4 policies of which one is cancelled at every party at a generated step - (4) once every cancel returned Ok the session's state machines have stopped, no destination got a second notification, the other sessions still deliver their correct results and, when everything has ended, all permits are back; fourth family: one policy, the leader cancelled while compiling and the follower cancelled at a later point - with nothing in flight at quiescence the leader's budget is complete; fifth family: one policy, a party cancelled while its result notification is being delivered, or immediately after any explorer action of a run whose destinations answer late (e.g. right after the answer, before the state machine has seen the task's Stop) - once nothing is in flight every budget is complete, whatever becomes of the cancel call; non-trivial = batch with >= 2 sessions or a fired failure; distinct by hash of the batch");
     let n_units = units(tier, seed).len();
     ctx.extra("work_units", json!(n_units));
     run_parent(&ctx, "C17", n_units);
@@ -286,6 +338,9 @@ pub fn run(tier: Tier, seed: u64) -> i32 {
 
 pub fn replay(path: &str) -> i32 {
     let text = std::fs::read_to_string(path).unwrap_or_default();
+    if (text.contains("\"OutputInFlight\"") || text.contains("\"AfterAction\"")) && text.contains("\"plan\"") && !text.contains("\"cancel2\": [") {
+        return crate::fw::replay_case::<crate::checks::c13::Case, _>("C17", path, 3, test_cancel_at_delivery);
+    }
     if text.contains("\"cancel2\"") && text.contains("\"plan\"") {
         return crate::fw::replay_case::<crate::checks::c13::Case, _>("C17", path, 3, test_two_cancels);
     }
